@@ -378,4 +378,8 @@ def tasks(tier):
                    overrides=dict(ov), max_paths=400000))
     for s_ in ('_step_simulator', '_skip_simulator'):
         ts.append(Task(f'flush.{s_}', t_flush(s_), extra=dict(x), overrides=dict(ov), invariants={}))
+    # "a cancelled order is never filled later", whoever calls Order.execute (the flush of queued market orders reaches orders
+    # that were cancelled after they were queued): the contract of Order.execute / Order.cancel itself (shared with C05)
+    import props.C05 as P5
+    ts += [t for t in P5.tasks(tier) if t.id.startswith(('execute.', 'cancel.')) and t.id.count('.') == 3]
     return ts
